@@ -582,7 +582,8 @@ def resolve_var(computed, token, parent_style):
         arguments = []
         for i, argument in enumerate(token.arguments):
             if argument.type == 'function':
-                arguments.extend(resolve_var(computed, argument, parent_style))
+                resolved = resolve_var(computed, argument, parent_style)
+                arguments.extend((argument,) if resolved is None else resolved)
             else:
                 arguments.append(argument)
         token = tinycss2.ast.FunctionBlock(
